@@ -454,6 +454,29 @@ impl Gen {
     pub fn stmt(&mut self, d: u32) -> String {
         self.budget -= 1;
         let d1 = d.saturating_sub(1);
+        // functions returning `Tk?`: `?` at statement level, so that several of them see
+        // different sets of live values (what was created in between, inner scopes)
+        if self.ret == Ret::OptTk && self.rng.chance(1, 4) {
+            self.mark("question-mark");
+            let e = self.expr(Ty::OptTk, d.min(1));
+            let v = self.name("v");
+            self.env.push((v.clone(), Ty::Tk));
+            return format!("let {v}: Tk = ({e})?;");
+        }
+        // an f-string built at statement level (its parts may leave the function)
+        if self.rng.chance(1, 14) {
+            self.mark("f-string-stmt");
+            let a = self.expr(Ty::U32, d.min(1));
+            let (c, x) = (self.expr(Ty::Bool, 0), self.exit(0));
+            let b = self.expr(Ty::Str, d.min(1));
+            let v = self.name("v");
+            self.env.push((v.clone(), Ty::Str));
+            return if self.rng.chance(1, 2) {
+                format!("let {v}: String = f\"p{{{a}}}q{{if {c} {{ {x} }} else {{ {b} }}}}r\";")
+            } else {
+                format!("let {v}: String = f\"p{{{a}}}q{{{b}}}\";")
+            };
+        }
         let k = if d == 0 || self.budget <= 0 { self.rng.below(45) } else { self.rng.below(100) };
         if k < 25 {
             self.mark("let");
